@@ -243,6 +243,33 @@ def c_beta(ctx, it, cfg):
     ctx.prove('area-factor-unchanged-by-the-evaluations', eq(prm.nucleation.areaFactor, fa))
 
 
+@REG.contract('bounded-history/incubationTimeNonIsothermal', [NR + ':incubationTimeNonIsothermal'], configs=[dict(name='L=%d' % L, L=L) for L in (1, 2, 3, 4)],
+              bounded='recorded history of at most 4 steps (values symbolic); the unbounded statement needs an induction along the history (constant sign of accumulated impingement minus threshold), not built')
+def c_incub_noniso(ctx, it, cfg):
+    """for a recorded history with non-decreasing times, non-negative impingement rates and positive temperatures the incubation time is non-negative
+    and the history arrays are left alone"""
+    class Mat(object):
+        theta = real(ctx, 'theta', lambda v: v > 0)
+    Z = real(ctx, 'Z', lambda v: v > 0)
+    cb = real(ctx, 'currBeta', lambda v: v > 0)
+    cT = real(ctx, 'currTemp', lambda v: v > 0)
+    L = cfg['L']
+    bl = [real(ctx, 'beta%d' % i, lambda v: v >= 0) for i in range(L)]
+    tl = [real(ctx, 'time%d' % i) for i in range(L)]
+    Tl = [real(ctx, 'temp%d' % i, lambda v: v > 0) for i in range(L)]
+    for i in range(L - 1):
+        ctx.assume(le(tl[i], tl[i + 1]))
+    ct = real(ctx, 'currTime')
+    ctx.assume(ge(ct, tl[-1]))
+    betas, times, temps = NP.array(bl), NP.array(tl), NP.array(Tl)
+    snaps = [snapshot(a) for a in (betas, times, temps)]
+    tau = it.get(NR, 'incubationTimeNonIsothermal')(Z, cb, ct, cT, betas, times, temps, Mat())
+    ctx.prove('incubation-time-non-negative', ge(tau, 0))
+    for nm, s0, a in zip(('betas', 'times', 'temperatures'), snaps, (betas, times, temps)):
+        unchanged(ctx, 'history-' + nm, s0, a)
+    ctx.prove('canary/always-zero', eq(tau, 0), expect='refuted')
+
+
 _SETTERS = [('gamma', lambda ctx, n, k: setattr(n, 'gamma', real(ctx, 'gamma%d' % k, lambda v: v > 0))),
             ('gbEnergy', lambda ctx, n, k: setattr(n, 'gbEnergy', real(ctx, 'gbE%d' % k, lambda v: v >= 0))),
             ('site', lambda ctx, n, k: n.setNucleationType('grain boundaries')),
